@@ -29,16 +29,27 @@ def new_memory_stream(ex, st, name, args):
     else:
         data = S.mk_str("") if text else S.mk_bytes(b"")
     ref = st.alloc("TextStream" if text else "Stream", {
-        "data": data, "pos": S.mk_int(0), "eof_hit": S.mk_bool(False),
+        "data": data, "pos": S.mk_int(0), "rem": data, "eof_hit": S.mk_bool(False),
         "seekable": S.mk_bool(True), "readable": S.mk_bool(True), "writable": S.mk_bool(True),
     })
     yield st, ref
 
 
 def invariant(st, ref):
+    """object invariant of a model stream: pos >= 0 and the ghost `rem` (what is still to
+    be read, data[pos:]) has the matching length"""
     obj = st.heap[ref.oid]
     if "pos" in obj and "data" in obj and isinstance(obj["pos"], V):
         st.assume(obj["pos"].t >= 0)
+        if "rem" in obj:
+            n = z3.Length(obj["data"].t)
+            st.assume(z3.Length(obj["rem"].t) == z3.If(n - obj["pos"].t > 0, n - obj["pos"].t, z3.IntVal(0)))
+
+
+def _suffix(text, data, pos):
+    n = z3.Length(data)
+    ln = z3.If(n - pos > 0, n - pos, z3.IntVal(0))
+    return z3.simplify((z3.SubString if text else z3.Extract)(data, pos, ln))
 
 
 def call(ex, st, ref, name, args, kwargs, node):
@@ -75,8 +86,13 @@ def call(ex, st, ref, name, args, kwargs, node):
             pad = ex.eng.spec_apply("spec.core", "zeros", [V("int", pos.t - n)]).t
             new = z3.If(pos.t == n, z3.Concat(data.t, b.t),
                         z3.If(pos.t < n, new, z3.Concat(data.t, pad, b.t)))
-        st.heap[ref.oid]["data"] = V(dty, z3.simplify(new))
-        st.heap[ref.oid]["pos"] = V("int", z3.simplify(pos.t + lb))
+        newd = z3.simplify(new)
+        newp = z3.simplify(pos.t + lb)
+        st.heap[ref.oid]["data"] = V(dty, newd)
+        st.heap[ref.oid]["pos"] = V("int", newp)
+        if "rem" in obj:
+            emp = z3.StringVal("") if text else z3.Empty(S.SeqI)
+            st.heap[ref.oid]["rem"] = V(dty, z3.simplify(z3.If(pos.t >= n, emp, _suffix(text, newd, newp))))
         yield st, V("int", lb)
         return
     if name == "read":
@@ -84,11 +100,17 @@ def call(ex, st, ref, name, args, kwargs, node):
             k = ex.as_int(ex.narrow(st, args[0]))
         else:
             k = z3.IntVal(-1)
-        avail = z3.If(n - pos.t > 0, n - pos.t, z3.IntVal(0))
-        ln = z3.If(k < 0, avail, z3.If(k < avail, k, avail))
-        ln = z3.simplify(ln)
         sub = z3.SubString if text else z3.Extract
-        out = sub(data.t, pos.t, ln)
+        if "rem" in obj:
+            rem = obj["rem"].t
+            avail = z3.Length(rem)
+            ln = z3.simplify(z3.If(k < 0, avail, z3.If(k < avail, k, avail)))
+            out = z3.simplify(sub(rem, z3.IntVal(0), ln))
+            st.heap[ref.oid]["rem"] = V(dty, z3.simplify(sub(rem, ln, avail - ln)))
+        else:
+            avail = z3.If(n - pos.t > 0, n - pos.t, z3.IntVal(0))
+            ln = z3.simplify(z3.If(k < 0, avail, z3.If(k < avail, k, avail)))
+            out = sub(data.t, pos.t, ln)
         st.heap[ref.oid]["pos"] = V("int", z3.simplify(pos.t + ln))
         if "eof_hit" in obj:
             st.heap[ref.oid]["eof_hit"] = V("bool", z3.simplify(z3.Or(obj["eof_hit"].t, z3.And(k >= 0, ln < k))))
@@ -122,6 +144,8 @@ def call(ex, st, ref, name, args, kwargs, node):
         # negative positions are outside the model (BytesIO raises ValueError)
         ex.eng.obligation(ex, st, "model.seek_nonneg", newpos >= 0, "model", node)
         st.heap[ref.oid]["pos"] = V("int", newpos)
+        if "rem" in obj:
+            st.heap[ref.oid]["rem"] = V(dty, _suffix(text, data.t, newpos))
         yield st, V("int", newpos)
         return
     if name == "truncate":
@@ -131,7 +155,10 @@ def call(ex, st, ref, name, args, kwargs, node):
             k = pos.t
         ex.eng.obligation(ex, st, "model.truncate_in_range", z3.And(k >= 0, k <= n), "model", node)
         sub = z3.SubString if text else z3.Extract
-        st.heap[ref.oid]["data"] = V(dty, z3.simplify(sub(data.t, z3.IntVal(0), k)))
+        newd = z3.simplify(sub(data.t, z3.IntVal(0), k))
+        st.heap[ref.oid]["data"] = V(dty, newd)
+        if "rem" in obj:
+            st.heap[ref.oid]["rem"] = V(dty, _suffix(text, newd, pos.t))
         # BytesIO.truncate leaves the position where it is (possibly beyond the new end;
         # a later write then pads with zero bytes, as modelled in `write`)
         yield st, V("int", k)
